@@ -108,6 +108,46 @@ def _copy_of(body, block, l, src):
     return False
 
 
+def discr_switches(body):
+    """`_d = discriminant(P); switchInt(_d)` pairs: yields (block, place P, {value string: target}, otherwise)"""
+    for bi, blk in enumerate(body.blocks):
+        t = blk["t"]
+        if t["k"] != "switch":
+            continue
+        p = op_place(t["op"])
+        if p is None or p["p"]:
+            continue
+        for s in reversed(blk["s"]):
+            if s["k"] == "assign" and s["lhs"]["l"] == p["l"] and not s["lhs"]["p"]:
+                if s["rv"]["k"] == "discr":
+                    yield bi, s["rv"]["place"], {v: tgt for v, tgt in t["targets"]}, t["otherwise"]
+                break
+
+
+def variant_edge_dominates(body, ev, block, source_pred, ty_prefix, value):
+    """is `block` dominated by the edge of a match on a value of type `ty_prefix...` whose term satisfies
+    source_pred, taken for discriminant `value` ("0" = first variant, e.g. Ok / Ready / None...)?"""
+    from .gate import edge_dominates
+    hits = []
+    for sb, place, targets, otherwise in discr_switches(body):
+        base_ty = body.local_ty(place["l"])
+        if place["p"]:
+            continue
+        if not base_ty.startswith(ty_prefix):
+            continue
+        term = ev.place(place, (sb, "T"))
+        if not source_pred(term):
+            continue
+        tgt = targets.get(value)
+        if tgt is None:
+            # `otherwise` edge taken for the remaining variant
+            others = set(targets.values())
+            tgt = otherwise if otherwise not in others else None
+        if tgt is not None and edge_dominates(body, sb, tgt, block):
+            hits.append(sb)
+    return hits
+
+
 def follow_copies(body, local, limit=8):
     """follow single-definition plain copies back to the originating local"""
     l = local
